@@ -647,9 +647,9 @@ func histSuite(name string, quickN, thoroughN int) suiteFunc {
 }
 
 var schedKinds = map[string][]string{
-	"C03": {"copies", "consecutive", "regressed"},
-	"C05": {"join-copies"},
-	"C07": {"copies", "consecutive", "regressed"},
+	"C03": {"copies", "consecutive", "regressed", "rejoin"},
+	"C05": {"join-copies", "rejoin"},
+	"C07": {"copies", "consecutive", "regressed", "rejoin"},
 	"C09": {"copies"},
 }
 
